@@ -194,6 +194,20 @@ class Tr:
         return e, t
 
     def assign(self, tgt, value):
+        # `x = default if x is None else x`  /  `x = x if x is not None else default`: same as `if x is None: x = default`
+        if isinstance(value, ast.IfExp) and isinstance(tgt, ast.Name):
+            t = value.test
+            if isinstance(t, ast.Compare) and len(t.ops) == 1 and isinstance(t.ops[0], (ast.Is, ast.IsNot)) \
+                    and isinstance(t.comparators[0], ast.Constant) and t.comparators[0].value is None \
+                    and isinstance(t.left, ast.Name) and t.left.id == tgt.id:
+                isnone = isinstance(t.ops[0], ast.Is)
+                dflt, keep = (value.body, value.orelse) if isnone else (value.orelse, value.body)
+                if isinstance(keep, ast.Name) and keep.id == tgt.id:
+                    stmt = ast.If(test=ast.Compare(left=ast.Name(id=tgt.id, ctx=ast.Load()), ops=[ast.Is()],
+                                                   comparators=[ast.Constant(value=None)]),
+                                  body=[ast.Assign(targets=[ast.Name(id=tgt.id, ctx=ast.Store())], value=dflt)], orelse=[])
+                    return self.if_stmt(stmt)
+            raise Unsupported("conditional expression")
         e, ty = self.expr(value)
         if isinstance(tgt, ast.Name):
             if tgt.id == "kwargs" or tgt.id == "self":
